@@ -21,6 +21,7 @@ A descriptor is a nested tuple of strings/ints only: hashable, orderable, JSON-a
     ("dcself", e)     Node{v: e, nxt: Optional["Node"] = None, kids: List["Node"] = []}
     ("dcselft", e)    Node{v: e, nxt: Optional[typing.Self] = None, kids: List[typing.Self] = []}
     ("dcfwd", e)      Holder{x: "Later", y: e}; class Later defined after Holder (postponed evaluation)
+    ("dcmut", e)      plain PA{v: e, b: Optional["PB"] = None} and plain PB{a: Optional[PA] = None, w: int = 0} referring to each other
 """
 from __future__ import annotations
 
@@ -348,7 +349,7 @@ def _hint(d, ctx):
         return _mk_td(d, ctx)
     if k == "dc":
         return _mk_dc(d, ctx)
-    if k in ("dcgen", "dcgeninh", "dcinh", "dcself", "dcselft", "dcfwd"):
+    if k in ("dcgen", "dcgeninh", "dcinh", "dcself", "dcselft", "dcfwd", "dcmut"):
         return _mk_special(d, ctx)
     raise ValueError(f"unknown descriptor {d!r}")
 
@@ -599,6 +600,13 @@ def _mk_special(d, ctx):
         H, Lc = ctx.ns[f"H{n}"], ctx.ns[f"L{n}"]
         ctx.info[d] = dict(cls=H, later=Lc, kind=k)
         return H
+    if k == "dcmut":
+        src = (f"@dataclass\nclass PA{n}:\n    v: {hn}\n    b: Optional['PB{n}'] = None\n"
+               f"@dataclass\nclass PB{n}:\n    a: Optional[PA{n}] = None\n    w: int = 0\n")
+        ctx.run(src)
+        A, B = ctx.ns[f"PA{n}"], ctx.ns[f"PB{n}"]
+        ctx.info[d] = dict(cls=A, other=B, kind=k)
+        return A
     raise ValueError(d)
 
 
@@ -764,6 +772,10 @@ def values(d, ctx: Ctx, top=True):
         H, Lc = ctx.info[d]["cls"], ctx.info[d]["later"]
         vs = inner(d[1])
         return [H(Lc(vs[0]), vs[-1]), H(Lc(vs[-1], 5), vs[0])]
+    if k == "dcmut":
+        A, B = ctx.info[d]["cls"], ctx.info[d]["other"]
+        vs = inner(d[1])
+        return [A(vs[0]), A(vs[-1], B(A(vs[0], B()), 4))]
     raise ValueError(d)
 
 
@@ -869,7 +881,7 @@ def show(d):
 # ---------------------------------------------------------------------------------------
 WIRE_LISTY = set(SEQ1) | set(SET1) | {"tuple", "tupleu", "chain", "pep585list", "pep585tuple", "ntf", "nt"}
 WIRE_DICTY = {"dict", "mapping", "mutmapping", "ordered", "defaultdict", "mproxy", "counter", "td", "dc", "dcgen",
-              "dcgeninh", "dcinh", "dcself", "dcselft", "dcfwd", "pep585dict"}
+              "dcgeninh", "dcinh", "dcself", "dcselft", "dcfwd", "dcmut", "pep585dict"}
 
 
 def wire_kinds(d):
@@ -963,7 +975,7 @@ def wrappers(e, level="full"):
     out += [("dc", "mixin", ((e, "dflt"),)), ("dc", "mixin", ((STR, "req"), (e, "none"))),
             ("dc", "plain", ((INT, "req"), (e, "dflt"), (e, "none"))),
             ("dc", "mixin", ((("final", e), "req"),))]
-    out += [(sp, e) for sp in ("dcgen", "dcgeninh", "dcinh", "dcself", "dcselft", "dcfwd")]
+    out += [(sp, e) for sp in ("dcgen", "dcgeninh", "dcinh", "dcself", "dcselft", "dcfwd", "dcmut")]
     return out
 
 
